@@ -2301,7 +2301,14 @@ fn gen_c11(rng: &mut Rng, ops: &mut Vec<String>, stats: &mut Stats) {
     let maxn_a = *rng.pick(&[16u64, 16, 16, 5, 40]);
     let maxn_b = *rng.pick(&[16u64, 16, 3, 40]);
     let bseq = rng.range(1, 9);
-    ops.push(format!("snew A k{} 1 4 0 ip4 all {} 16 0", a, maxn_a));
+    // (one in four: the requester is dual-stack and knows the responder under a record with both an
+    // IPv4 and an IPv6 socket; it talks to it over one of them)
+    let dual = rng.chance(1, 4);
+    if dual {
+        ops.push(format!("snew A k{} 1 46 0 dual all {} 16 0", a, maxn_a));
+    } else {
+        ops.push(format!("snew A k{} 1 4 0 ip4 all {} 16 0", a, maxn_a));
+    }
     ops.push(format!("snew B k{} {} 4 0 ip4 all {} 16 0", b, bseq, maxn_b));
     let bid = id_of_seed(b);
     let bhex = hex::encode(bid);
@@ -2324,7 +2331,7 @@ fn gen_c11(rng: &mut Rng, ops: &mut Vec<String>, stats: &mut Stats) {
         ops.push(format!("sest B k{}:1:4:0 = i", a));
     }
     // A knows B and a few others
-    ops.push(format!("sest A k{}:{}:4:0 = o", b, bseq));
+    ops.push(format!("sest A k{}:{}:{}:0 = o", b, bseq, if dual { "46" } else { "4" }));
     if rng.chance(1, 4) {
         // the responder's address is on A's permit list
         ops.push(format!("spermit A {}", peer_addr(b, "ip4")));
